@@ -75,14 +75,14 @@ impl<const N: usize> SlotManager<N> {
             if let (Some(low), Some(high)) = (low, high) {
                 // unwrap is ok here since this is guaranteed to contain something by earlier code.
                 let high_seq_no = headers[high].as_ref().unwrap().seq_no;
-                if (high + N - low) % N <= N - 2 {
-                    // Just use the empty slots, no need to be fancy
+                if (high + N - low) % N + 3 <= N {
+                    // At least two empty slots: just use them, no need to be fancy
                     let first = (high + 1) % N;
                     let second = (high + 2) % N;
                     let first_seq_no = high_seq_no.next();
                     let second_seq_no = first_seq_no.next();
                     (first, second, first_seq_no, second_seq_no)
-                } else if (high + N - low) % N == N - 1 {
+                } else if (high + N - low) % N + 2 == N {
                     // One empty slot, we will always use that
                     let firmware = fallback_firmware_slot(&headers).unwrap_or(low);
 
@@ -106,8 +106,12 @@ impl<const N: usize> SlotManager<N> {
                     if (high + 1) % N == firmware || (high + 2) % N == firmware {
                         let first = (high + N - 1) % N;
                         let second = high;
-                        // unwrap will not fail since it is a used slot
-                        let first_seq_no = headers[first].as_ref().unwrap().seq_no;
+                        // The slot before the newest may be blank (interrupted start, recovery
+                        // clean-up): the number just below the newest is free in that case.
+                        let first_seq_no = headers[first]
+                            .as_ref()
+                            .map(|h| h.seq_no)
+                            .unwrap_or(SequenceNumber(high_seq_no.0.saturating_sub(1)));
                         (first, second, first_seq_no, high_seq_no)
                     } else {
                         let first = (high + 1) % N;
@@ -133,8 +137,10 @@ impl<const N: usize> SlotManager<N> {
             segment_size: None,
         };
 
-        first.clear(flash).await?;
+        // Erase the newer slot first: when the newest pair is reused, losing power between the two
+        // erases must not leave the newest (parity) header paired with an older firmware slot.
         second.clear(flash).await?;
+        first.clear(flash).await?;
         first.write_seq_no(first_seq_no, flash).await?;
         second.write_seq_no(second_seq_no, flash).await?;
 
